@@ -1261,9 +1261,43 @@ fn compile_cexpr(goenv: &GlobalGoEnv, e: &anf::CExpr) -> goast::Expr {
                 ty: vtable_ptr_ty,
             };
 
+            // The value is stored in an `any`: an untyped numeric constant would be boxed
+            // as int / float64, and the wrapper's assertion to the receiver type would fail.
+            let data_expr = compile_imm(goenv, expr);
+            let numeric_go_name = match for_ty {
+                tast::Ty::TInt8 => Some("int8"),
+                tast::Ty::TInt16 => Some("int16"),
+                tast::Ty::TInt32 => Some("int32"),
+                tast::Ty::TInt64 => Some("int64"),
+                tast::Ty::TUint8 => Some("uint8"),
+                tast::Ty::TUint16 => Some("uint16"),
+                tast::Ty::TUint32 => Some("uint32"),
+                tast::Ty::TUint64 => Some("uint64"),
+                tast::Ty::TFloat32 => Some("float32"),
+                tast::Ty::TFloat64 => Some("float64"),
+                _ => None,
+            };
+            let data_expr = match (numeric_go_name, expr) {
+                (Some(name), anf::ImmExpr::ImmPrim { .. }) => {
+                    let go_ty = tast_ty_to_go_type(for_ty);
+                    goast::Expr::Call {
+                        func: Box::new(goast::Expr::Var {
+                            name: name.to_string(),
+                            ty: goty::GoType::TFunc {
+                                params: vec![go_ty.clone()],
+                                ret_ty: Box::new(go_ty.clone()),
+                            },
+                        }),
+                        args: vec![data_expr],
+                        ty: go_ty,
+                    }
+                }
+                _ => data_expr,
+            };
+
             goast::Expr::StructLiteral {
                 fields: vec![
-                    ("data".to_string(), compile_imm(goenv, expr)),
+                    ("data".to_string(), data_expr),
                     ("vtable".to_string(), vtable_expr),
                 ],
                 ty: dyn_struct_ty,
